@@ -314,7 +314,7 @@ def random_cfg(rng, alg=None, family="roomy", nobs=None, maxn=4):
     if family == "roomy" and len(obs) > 1 and rng.random() < 0.15:
         # a quiet gap: everything before the last observation has drained when it falls due
         obs[-1]["est"] += rng.randint(8, 14)
-    if len(obs) > 1 and rng.random() < 0.15:
+    if len(obs) > 1 and rng.random() < 0.25:
         # observation names may contain underscores and extend one another
         obs[1]["o"] = rng.choice(["b_x", "a_x", "a_2"])
     if len(obs) > 1 and rng.random() < 0.3:
